@@ -253,6 +253,41 @@ def chunk_rule(ctx, fn, fc):
     ctx.check("C07.C", "count_chunk:empty_pass", bool(ok0), "an empty pass returns 0 after the workers joined and writes no file",
               "count_chunk's `return 0` is not placed after the counting scope and before the chunk files are written",
               line_of(rets[0]) if rets else fc.fn["sp"])
+    # the pass counts as empty exactly when no record was TAKEN (not when nothing was counted: records without a
+    # valid k-mer still have to let the following passes run)
+    rec_ctr = None
+    adds = [n for n in fc.nodes if n.get("k") == "mcall" and cname(n).endswith("::fetch_add") and fc.term(n["args"][0]) == L(1)]
+    taken_adds = []
+    for a in adds:
+        gs = [c for c, p in fc.guards(a) if p and c.get("k") == "letexpr"]
+        in_inner_loop = False
+        for anc in fc.ancestors(a):
+            if anc.get("k") == "closure":
+                break
+            if anc.get("k") in ("for", "while"):
+                in_inner_loop = True
+        if gs and fc.in_closure_passed_to(a, is_spawn) is not None and not in_inner_loop:
+            taken_adds.append(a)
+    okc = len(taken_adds) == 1
+    if okc:
+        rec_ctr = fc.term(taken_adds[0]["recv"])
+    ctx.check("C07.C", "count_chunk:records_counted", okc, "one fetch_add(1) per taken record",
+              "expected exactly one `fetch_add(1)` on the records counter under `if let Some(record)` in the worker "
+              "(found %d)" % len(taken_adds), line_of(taken_adds[0]) if taken_adds else fc.fn["sp"])
+    if rets and rec_ctr is not None:
+        gs = [(fc.term(c), p) for c, p in fc.guards(rets[0], with_asserts=False)]
+        def is_zero_records(t, p):
+            return p and t[0] == "bin" and t[1] == "==" and L(0) in (t[2], t[3]) and any(
+                x[0] == "call" and x[1].endswith("::load") and x[2] == rec_ctr for x in (t[2], t[3]))
+        okz = len(gs) == 1 and is_zero_records(*gs[0])
+        ctx.check("C07.C", "count_chunk:empty_means_no_record", okz, "`return 0` exactly when the records counter is 0",
+                  "count_chunk returns 0 (which ends counting) under %s; it must do so exactly when no record was taken "
+                  "in this pass — a pass whose records contain no valid k-mer would otherwise silently end the run and "
+                  "drop every later record" % [("" if p else "!") + show(t) for t, p in gs], line_of(rets[0]))
+        res = fc.term(fc.body.get("expr")) if fc.body.get("expr") else ("none",)
+        okr = res[0] == "call" and res[1].endswith("::load") and res[2] == rec_ctr
+        ctx.check("C07.C", "count_chunk:returns_record_count", okr, "returns the number of records taken",
+                  "count_chunk returns `%s`, not the records counter" % show(res), fc.fn["sp"])
     # write scope: par_iter().enumerate().for_each over the whole table
     fe = [n for n in fc.nodes if n.get("k") == "mcall" and cname(n).endswith("ParallelIterator::for_each")]
     okw = False
